@@ -542,3 +542,33 @@ def check_entry_table(cx, rule_oneway, rule_more, prefix):
                      note_ok="continues = true; request carries more: true")
         elif name in ("call", "upgrade", "oneway"):
             cx.check(s["armed"] <= {None, 0}, rule_more, prefix + ":%s:does-not-arm-the-iterator" % name, site, "%s() sets self.continues" % name, note_ok="continues untouched")
+
+
+def check_recv_framing(cx, rule, prefix):
+    """a reply is one NUL-terminated frame however it is segmented on the wire: recv() fills a buffer with read_until(0) on the
+    call's own reader and parses exactly that buffer; it does not parse whatever a single fill_buf()/read() happened to deliver"""
+    f = Fn(cx, MC + "recv")
+    body, cfg, du = f.body, f.cfg, f.du
+    ru = body.calls("=read_until")
+    ps = [t for t in body.calls() if not t.callee.indirect and "serde_json" in t.callee.path and t.callee.name in ("from_slice", "from_str", "from_reader")]
+    why = []
+    if len(ps) != 1: why.append("%d parser calls" % len(ps))
+    if not ru: why.append("no read_until on the reader")
+    single = [t.callee.name for t in body.calls("=fill_buf", "=consume", "=read", "=read_exact", "=read_line") if "io::" in t.callee.resolved or "BufRead" in (t.callee.trait or "") or "Read" in (t.callee.trait or "")]
+    if single: why.append("recv() also reads with %s: a reply that arrives in several segments (or is larger than the buffer) is cut" % sorted(set(single)))
+    if ru and len(ps) == 1:
+        for t in ru:
+            d = t.args[1]
+            v = d.cint() if d.is_const else None
+            if v != 0: why.append("read_until delimiter is %r" % v)
+        bufs = {ref_base_local(du, t.args[2]) for t in ru}
+        sl = Slice(body, du, extra_pass=("=deref", "=as_slice", "=as_ref", "=borrow"))
+        src = {o.dest.l for k, o in sl.origins(ps[0].args[0]) if k == "call" and o.callee.name in ("new", "with_capacity")}
+        if not (src & bufs): why.append("the parser is not fed the buffer read_until filled")
+        if not all(cfg.dominates(t.bb, ps[0].bb) for t in ru[:1]): why.append("the parse is reachable without the read")
+    cx.check(not why, rule, prefix + ":recv:one-frame-per-reply", body.sp, "; ".join(why), note_ok="read_until(0) into a buffer, that buffer parsed")
+
+
+def ref_base_local(du, op):
+    from vlib.cfg import ref_base
+    return ref_base(du, op.place.l)[0] if op.place is not None else None
